@@ -46,13 +46,14 @@ ASSUMPTIONS = [
     'a mode whose |k|^2, k_perp^2, kz^2 or mu^2 is within 4 float32 ulp of a squared edge may be counted on either side (also in/out at an outer edge, including |k| = 0 on a first k edge of exactly 0); the mu range [0,1] and the lower end pi = 0 are closed',
     'float tolerance per bin: (4*2^-24*(N_mode+8) + 1e-6) * mean|term| (sequential float32 accumulation bound); multipoles additionally 2e-6 * (2l+1) * sum|coeff(P_l)| for the float32 Legendre evaluation',
     'real-space (fourier=False) meshes are generated point-symmetric, as produced by irfftn of a real P(k)',
-    'even shards run with NUMBA_BOUNDSCHECK=1; in the other shards bin_kppi is first run through its pure-Python twin whenever pimax is below the largest kz (numpy bounds checks), so no compiled out-of-bounds read is ever executed',
+    'shards alternate NUMBA_BOUNDSCHECK=1 (pattern BOUNDSCHECK); in the shards without it bin_kppi is first run through its pure-Python twin whenever pimax is below the largest kz (numpy bounds checks), so no compiled out-of-bounds read is ever executed',
 ]
 
 SIG_ODDFOLD = 'odd-mesh-frequency-folding'
 SIG_EARLYBREAK = 'kppi-early-break-drops-modes'
 SIG_NYQ = 'nyquist-plane-multiplicity'
 SIG_NTHREAD = 'mode-count-depends-on-nthread'
+SIG_TIE_NTHREAD = 'tie-direction-depends-on-nthread'
 SIG_POLE0 = 'pole0-vs-wedges'
 SIG_OOB = 'bin_kppi-piedges-oob'
 
@@ -66,7 +67,7 @@ _evidence = {'cases_with_ties': 0, 'ambiguous_modes': 0, 'bins_with_means_judged
 def config(tier):
     if tier == 'quick':
         return dict(shards=4, examples=375, numba_threads=16, boundscheck=BOUNDSCHECK, shrink_calls=150, soft_s=100, env={'OMP_WAIT_POLICY': 'passive'})
-    return dict(shards=8, examples=2500, numba_threads=16, boundscheck=BOUNDSCHECK, shrink_calls=300, soft_s=800, env={'OMP_WAIT_POLICY': 'passive'})
+    return dict(shards=8, examples=6000, numba_threads=16, boundscheck=BOUNDSCHECK, shrink_calls=300, soft_s=800, env={'OMP_WAIT_POLICY': 'passive'})
 
 
 # ----------------------------------------------------------------------------------------------
@@ -686,13 +687,24 @@ def run_case(d):
     for out in (outA, outB):
         _shape_check(d, out, nk, ny)
     cA, cB = outA[1], outB[1]
+    primary = _full(n, stored)
     if not np.array_equal(cA, cB) or (api != 'kppi' and not np.array_equal(outA[3], outB[3])):
-        raise Violation(SIG_NTHREAD, 'api=%s n=%d: N_mode with nthread=%d: %s, with nthread=%d: %s' % (api, n, d['nthread'], cA.tolist(), d['nthread2'], cB.tolist()))
+        # Are only modes that sit on an edge (ties) involved?  Then every single table may still be admissible, but the
+        # *direction* of the tie changed with the thread count -- reported under its own signature.
+        if api == 'kppi':
+            ref = modes.kppi_reference(primary, values, ke_sq, y_sq)
+        else:
+            ref = modes.kmu_reference(primary, values, ke_sq, y_sq, [], _kunit(d))
+        tie_only = ref.n_ambiguous > 0 and bool(np.all(np.abs(cA - cB) <= (ref.hi - ref.lo)))
+        raise Violation(
+            SIG_TIE_NTHREAD if tie_only else SIG_NTHREAD,
+            'api=%s n=%d prec=%s: N_mode with nthread=%d: %s, with nthread=%d: %s%s'
+            % (api, n, d['prec'], d['nthread'], cA.tolist(), d['nthread2'], cB.tolist(), ' [only bins holding modes exactly on an edge differ: the side such a mode falls on depends on the thread count]' if tie_only else ''),
+        )
     if api != 'kppi':
         for out in (outA, outB):
             _pole0_identity(d, out)
 
-    primary = _full(n, stored)
     _evidence['modes_enumerated'] += n**3
     ref0 = None
     for out, nt in ((outA, d['nthread']), (outB, d['nthread2'])):
